@@ -211,7 +211,21 @@ func lifeFamily(id, tier string, p map[string]bool, tweak func(kind string, o *L
 	if tweak != nil {
 		tweak("pending", &pi)
 	}
-	return []*engine.Scenario{LifeScenario(a), LifeScenario(b), LifeScenario(c), LifeScenario(dd), LifeScenario(e), LifeScenario(f), LifeScenario(g), LifeScenario(hh), LifeScenario(pi)}
+	// j: sizes at the bottom of the price scale (collateral, income and refunds round to zero or one coin)
+	tiny := r1Life(id, tier, p)
+	tiny.ID = id + "-life-tiny"
+	tiny.Sizes = []uint64{1, 333}
+	tiny.Durations = []uint64{3600}
+	tiny.Drain = false
+	tiny.Depth = 5
+	if tier == "thorough" {
+		tiny.Depth = 7
+		tiny.Sizes = []uint64{1, 333, 277_778}
+	}
+	if tweak != nil {
+		tweak("tiny", &tiny)
+	}
+	return []*engine.Scenario{LifeScenario(a), LifeScenario(b), LifeScenario(c), LifeScenario(dd), LifeScenario(e), LifeScenario(f), LifeScenario(g), LifeScenario(hh), LifeScenario(pi), LifeScenario(tiny)}
 }
 
 func init() {
